@@ -68,6 +68,10 @@ pub fn gen_long_history(check: &str, seed: u64, tier: Tier) -> Run {
     if check == "C13" {
         run.set("analysis", [0, 0, 0, 0, 1, 2][Rng::stream(seed, "analysis").below(6)]);
     }
+    // (own stream) one run in seven has a companion e-graph in the same thread (sess.rs)
+    if Rng::stream(seed, "companion").chance(1, 7) {
+        run.set("companion", 1);
+    }
     run
 }
 
@@ -103,10 +107,13 @@ impl Check for HistoryCheck {
 }
 
 impl HistoryCheck {
-    fn exec_with<N: Analysis<LS>>(&self, run: &Run, eg: EGraph<LS, N>) -> Outcome {
+    fn exec_with<N: Analysis<LS> + Clone>(&self, run: &Run, eg: EGraph<LS, N>) -> Outcome {
         let mut out = Outcome::default();
         seam::apply(&run.knobs());
         let mut s: Sess<LS, N> = Sess::new(eg, run.get("naming") as u32);
+        if run.get("companion") != 0 {
+            s.enable_companion();
+        }
         let mut orng = Rng::stream(run.get("oracle_seed") as u64, "oracle-sampling");
         // recorded history
         let mut equal_pairs: Vec<(AppliedId, AppliedId, usize, String)> = Vec::new();
